@@ -833,7 +833,7 @@ impl<'de> Deserialize<'de> for Scheme {
             {
                 let mut builder = SchemeBuilder::new();
                 while let Some((name, SerdeField { ty, optional })) =
-                    map.next_entry::<&str, SerdeField>()?
+                    map.next_entry::<String, SerdeField>()?
                 {
                     builder
                         .add_field_full(name.into(), ty, optional)
